@@ -143,9 +143,18 @@ def gen_probes(tier):
                     k1, k2 = ratio / g, Fraction(1) / g
                     M_mixed = permitted(r1, c, k1) and permitted(r2, c, k2)
                     # when a magnitude is so large that the *common unit's* own factors are involved the statement is the same predicate; keep it
-                    probes.append(dict(base, id=pid, form="mixed_ops", model=M_mixed, expect="accept" if M_mixed else "reject", dedup_key=(rs, c),
-                                       text=f"void vf_p{pid}({q1} a, {q2} b) {{ bool e = (a == b); bool l = (a < b); auto s = a + b; (void)e; (void)l; (void)s; }}"))
-                    pid += 1
+                    fams = [("mixed_ops", "bool e = (a == b); bool l = (a < b); auto s = a + b; (void)e; (void)l; (void)s;", False),
+                            ("mixed_cmp", "bool x = (a != b) || (a <= b) || (a > b) || (a >= b); (void)x;", False),
+                            ("mixed_sub_minmax", "auto d = a - b; auto m = min(a, b); auto n = max(b, a); (void)d; (void)m; (void)n;", False),
+                            ("mixed_spaceship", "auto c = (a <=> b); (void)c;", True)]
+                    if REPS[r1][2] and REPS[r2][2]:
+                        fams.append(("mixed_mod", "auto r = a % b; (void)r;", False))
+                    for fname, body, cpp20 in fams:
+                        if fname != "mixed_ops" and tier == "quick" and rnd.random() < 0.5:
+                            continue
+                        probes.append(dict(base, id=pid, form=fname, model=M_mixed, expect="accept" if M_mixed else "reject", dedup_key=(rs, c, fname), cpp20=cpp20,
+                                           text=f"void vf_p{pid}({q1} a, {q2} b) {{ {body} }}"))
+                        pid += 1
                 if M and REPS[r2][2] and REPS[r1][2] and ratio != "irr":
                     value_cases.append({"r1": r1, "r2": r2, "k": ratio.numerator, "u1": u1})
     # dimension mismatch answers 'no' without a hard error (shared with C01)
@@ -232,18 +241,21 @@ def run_values(cases, tier, chk):
 def run(chk, which="C06"):
     tier = chk.tier
     probes, value_cases = gen_probes(tier)
-    cfgs = [(core.GXX, "c++14"), (core.CLANGXX, "c++17")] if tier == "quick" else core.CONFIGS
+    cfgs = [(core.GXX, "c++14"), (core.CLANGXX, "c++17"), (core.GXX, "c++20")] if tier == "quick" else core.CONFIGS
     by = {p["id"]: p for p in probes}
 
-    groups = {"traits": [p for p in probes if p["form"] not in ("as_unit_only", "mixed_ops", "copy_init")],
+    groups = {"traits": [p for p in probes if p["form"] not in ("as_unit_only", "copy_init") and not p["form"].startswith("mixed_")],
               "copy": [p for p in probes if p["form"] == "copy_init"],
               "as": [p for p in probes if p["form"] == "as_unit_only"],
-              "mixed": [p for p in probes if p["form"] == "mixed_ops"]}
+              "mixed": [p for p in probes if p["form"].startswith("mixed_")]}
 
     def do_cfg(job):
         cfg, gname = job
         pr = ccmon.ProbeRun(PRE, cfg[0], cfg[1], batch=140)
-        return cfg, pr.run(groups[gname], tag="c06" + gname), pr
+        sel = [p for p in groups[gname] if not p.get("cpp20") or cfg[1] == "c++20"]
+        if cfg[1] == "c++20" and tier == "quick" and gname != "mixed":
+            sel = sel[::4]  # the third quick configuration is there for the C++20-only forms; a slice of the rest suffices
+        return cfg, pr.run(sel, tag="c06" + gname), pr
 
     results = core.pmap(do_cfg, [(c, g) for c in cfgs for g in groups], workers=4)
     nprobe = 0
@@ -261,7 +273,7 @@ def run(chk, which="C06"):
                 msg = (r["msgs"] or ["?"])[0]
                 wrong_answer = "static assertion failed" in msg and "vf" in msg or "static_assert failed" in msg and "vf" in msg
                 what = "answers differently from the documented predicate" if wrong_answer else "is not total: asking is a hard error"
-                if p["form"] in ("copy_init", "as_unit_only", "mixed_ops"):
+                if p["form"] in ("copy_init", "as_unit_only") or p["form"].startswith("mixed_"):
                     what = "is rejected although the documented predicate permits it"
                 chk.violation(f"C06|{tag}|cfg={cs}", msg=f'{cs}: {p["form"]} for Quantity<U*{p["ratio"]},{p["r1"]}> -> Quantity<U,{p["r2"]}> (model: {p["model"]}) {what}: {msg[:220]}')
             elif p["expect"] == "reject" and not r["rejected"]:
